@@ -40,7 +40,9 @@ CLAIMED["C02"] = dict(
     text="Per-path analysis of the controller callbacks: exactly one finish() per path with the documented mapping, "
          "no exit of postMortemCheck without restart or final state, comp_done.add and scheduler wake-up on every exit "
          "of finishedCheck (incl. replay after sleeping), exactly one disposition per ready component, effect order in "
-         "_fake_finish_with_state, verdict computation in Controller.run, precedence in StageState.state and the "
+         "_fake_finish_with_state, the finish() handshake of ComponentState (the final-state setter is subscribed to "
+         "notifyPostMortem before any POSTMORTEM trigger; every path sets or subscribes the requested state), verdict "
+         "computation in Controller.run, precedence in StageState.state and the "
          "shutdown-propagation table. Decides the obligations without which some ordering leaves a component pending "
          "or in a rule-violating state; does not explore interleavings.",
     technique="statement CFG with handler/finally modelling: must-pass-through, per-path call counting, branch-table "
@@ -52,7 +54,8 @@ CLAIMED["C12"] = dict(
          "and its arithmetic implies restarts+1 <= max (linear normalisation of the comparison), defaults 3 / unlimited-with-"
          "hook, launch only under 'reason in restartHookOn' or SubmissionFailed via reaching definitions of the restart "
          "context (path-sensitive in the context's value class), counter discipline for restarts and _resubmissionAttempts, "
-         "the three controller guards with the literal cap 5, schema exclusion of Killed/Cancelled, refusal paths of "
+         "the three controller guards with the literal cap 5 (every restart reachable for SubmissionFailed passes the cap "
+         "test, also when SubmissionFailed is listed in restartHookOn), schema exclusion of Killed/Cancelled, refusal paths of "
          "ComponentState.restart / RepeatingEngine.restart, and final state after a refused restart. With the counting "
          "argument on the loop-free restart function this bounds restarts for every exit-reason sequence and hook outcome.",
     technique="CFG edge-dominance, reaching definitions, value-class product reachability, linear comparison "
@@ -182,8 +185,11 @@ CLAIMED["C07"] = dict(
          "unreplicated description; $import components and the selected platform's override are kept; iteration 0 is "
          "not re-created for instances while the document is still registered; every new iteration is persisted after "
          "its components were added; writer/generator/loader agree on file names; user variables are patched in before "
-         "the copy that is stored is taken. Equality of resolved configurations after a reload is not decided.",
-    technique="writer/schema key-set agreement, CFG edge-dominance and statement-order (must-pass-through) checks",
+         "the copy that is stored is taken; the flattening of the four variable scopes in instance() lets the same "
+         "scope win as the live resolver get_component_variables for all 16+4 scope-membership patterns of a name "
+         "(abstract interpretation of the dictionary layering). Equality of resolved configurations after a reload is not decided.",
+    technique="writer/schema key-set agreement, CFG edge-dominance and statement-order (must-pass-through) checks, "
+              "abstract interpretation of dict layering over a finite membership domain (sibling agreement)",
     design="3/C07")
 
 CLAIMED["C11"] = dict(
